@@ -52,12 +52,50 @@ func (e *Enc) loopHeader(b *ssa.BasicBlock, li *loopInfo, st *State) {
 	e.assume("(>= " + na + " " + st.alloc + ")")
 	st.alloc = na
 	for k := range st.ghost {
+		if strings.HasPrefix(k, "g:") && !ws.ghost[k] {
+			continue // ghost variables change only through ghost-at / callee modifies
+		}
 		if ws.ghost[k] || ws.all || strings.HasPrefix(k, "iter:") && ws.ghost[k] {
 			sortName := "Int"
 			if strings.HasPrefix(k, "held:") || strings.HasPrefix(k, "b:") {
 				sortName = "Bool"
 			}
 			st.ghost[k] = e.declare(e.freshName("gh"), sortName)
+		}
+	}
+	if e.ctr != nil {
+		for _, ga := range e.ctr.GhostAts {
+			if ga.SelKind == "entry" {
+				continue
+			}
+			// havoc only if an assignment site can lie inside this loop
+			inLoop := ga.SelKind != "call"
+			for bb := range li.Body {
+				for _, ins := range bb.Instrs {
+					var cc *ssa.CallCommon
+					switch x := ins.(type) {
+					case *ssa.Call:
+						cc = &x.Call
+					case *ssa.Defer:
+						cc = &x.Call
+					case *ssa.Go:
+						cc = &x.Call
+					}
+					if cc == nil {
+						continue
+					}
+					key, _ := e.calleeKey(cc)
+					if b, ok := cc.Value.(*ssa.Builtin); ok {
+						key = b.Name()
+					}
+					if ga.Callee == "" || matchCallee(ga.Callee, ShortKey(key)) {
+						inLoop = true
+					}
+				}
+			}
+			if inLoop {
+				st.ghost["g:"+ga.Var] = e.declare(e.freshName("gh_"+ga.Var), "Int")
+			}
 		}
 	}
 	for _, phi := range phis {
